@@ -3,7 +3,7 @@ FRAGMENT = {
  'C10': {'bin': 'w_c10',
  'world': 'c10',
  'level': 'exploration',
- 'quick': {'runs': 60000, 'budget_s': 28, 'workers': 16},
+ 'quick': {'runs': 120000, 'budget_s': 28, 'workers': 16},
  'thorough': {'runs': 4000000, 'budget_s': 600, 'workers': 16, 'det_sample': 200},
  'level_text': 'seeded exploration of cache operation histories (two parties: a client issuing the history, a holder keeping page references across it; '
                'memory limit set between one page and 1 GiB so that eviction runs) plus a bounded-exhaustive prefix, against a reference map with a '
